@@ -215,13 +215,13 @@ def _may_reach(tag, method, ver, inm, prog):
     return True
 
 
-def _body(req, prog, pre=None):
+def _body(req, prog, pre=None, slow=False):
     method, ver, inm, reqb = request_bytes(req)
     if P.reach is not None and not _may_reach(P.reach, method, ver, inm, prog):
         return
     with install() as env:
         app = rig.make_app(prog, pre_hook=pre)
-        st = rig.serve(env, app, reqb + (rig.SECOND_REQ if P.second else b""))
+        st = rig.serve(env, app, reqb + (rig.SECOND_REQ if P.second else b""), slow=slow)
         wire, closed = st.wire(), st.closed()
     check_response(method, ver, inm, prog, wire, closed)
 
@@ -266,20 +266,29 @@ def h_resp_prestate(req: int, s0: int, prog: List[Tuple[int, int]]):
     check_response(method, ver, inm, full, wire, closed)
 
 
+def pre_pipelined(req: int, prog: List[Tuple[int, int]], slow: bool) -> bool:
+    return pre_resp(req, prog)
+
+
 @harness(
-    pre=pre_resp,
+    pre=pre_pipelined,
     quick=dict(R=11, N=1, K=6, A=2, second=1, timeout=100, reach_timeout=60),
     thorough=dict(R=15, N=2, K=6, A=3, second=1, timeout=1400, reach_timeout=90),
     nshards=dict(quick=11, thorough=15),
-    reach=["second_answered", "closed_after_first"],
+    reach=["second_answered", "closed_after_first", "slow_consumer"],
     units=["same as h_resp + HTTP1ServerConnection._server_request_loop second iteration"],
-    stubs=["same as h_resp; a pipelined 'GET /z HTTP/1.1' follows the first request"],
+    stubs=["same as h_resp; a pipelined 'GET /z HTTP/1.1' follows the first request",
+           "slow=True: slow consumer (FakeStream slow_writes: writes stay pending until the peer drains; "
+           "drained repeatedly until quiescent)"],
     outside=["same as h_resp"],
 )
-def h_resp_pipelined(req: int, prog: List[Tuple[int, int]]):
+def h_resp_pipelined(req: int, prog: List[Tuple[int, int]], slow: bool):
     """Same oracle with a second pipelined request: the bytes after the first response are either
-    nothing (and the connection is closed) or exactly the canned answer to the second request."""
-    _body(req, prog)
+    nothing (and the connection is closed) or exactly the canned answer to the second request;
+    also with a slow consumer (writes completing asynchronously)."""
+    if slow:
+        reached("slow_consumer")
+    _body(req, prog, slow=slow)
 
 
 TECHNIQUE = ("CrossHair symbolic execution of the real RequestHandler/HTTP1Connection output path driven by a "
